@@ -42,7 +42,7 @@ type StructDataProvider struct {
 
 func (s *StructDataProvider) Get(key string) any {
 	field := s.value.FieldByName(key)
-	if !field.IsValid() {
+	if !field.IsValid() || !field.CanInterface() {
 		return nil
 	}
 	return field.Interface()
@@ -148,15 +148,15 @@ func TryNewAnyDataProvider(val any) (DataProvider, error) {
 
 		switch valTyp.Kind() { // TODO: add more types
 		case reflect.String:
-			return NewSafeMapDataProvider(x.Interface().(map[string]string)), nil
+			return NewSafeMapDataProvider(x.Convert(reflect.TypeOf(map[string]string(nil))).Interface().(map[string]string)), nil
 		case reflect.Int:
-			return NewSafeMapDataProvider(x.Interface().(map[string]int)), nil
+			return NewSafeMapDataProvider(x.Convert(reflect.TypeOf(map[string]int(nil))).Interface().(map[string]int)), nil
 		case reflect.Float64:
-			return NewSafeMapDataProvider(x.Interface().(map[string]float64)), nil
+			return NewSafeMapDataProvider(x.Convert(reflect.TypeOf(map[string]float64(nil))).Interface().(map[string]float64)), nil
 		case reflect.Bool:
-			return NewSafeMapDataProvider(x.Interface().(map[string]bool)), nil
+			return NewSafeMapDataProvider(x.Convert(reflect.TypeOf(map[string]bool(nil))).Interface().(map[string]bool)), nil
 		case reflect.Interface:
-			return NewSafeMapDataProvider(x.Interface().(map[string]any)), nil
+			return NewSafeMapDataProvider(x.Convert(reflect.TypeOf(map[string]any(nil))).Interface().(map[string]any)), nil
 		default:
 			return &EmptyDataProvider{Underlying: val}, fmt.Errorf("could not convert map[string]%s to a data provider", valTyp.String())
 		}
